@@ -434,7 +434,7 @@ package bitcoin_reader
 //@   requires bdOK(bd)
 //@   ensures [C16.stop-signals-once] sent(bd.Started) == old(sent(bd.Started)) + ite(old(!bd.isComplete && !bd.isCancelled && !bd.isStarted), 1, 0) && sent(bd.Complete) == old(sent(bd.Complete)) + ite(old(!bd.isComplete && !bd.isCancelled && !bd.isStarted), 1, 0)
 //@   ensures [C16.stop-result-cancelled] old(!bd.isComplete && !bd.isCancelled && !bd.isStarted) ==> chanlog(bd.Complete, old(sent(bd.Complete))) == errBlockDownloadCancelled
-//@   ensures [C16.stop-marks-cancelled] old(!bd.isComplete) ==> bd.isCancelled
+//@   ensures [C16.stop-marks-cancelled] (old(!bd.isComplete) ==> bd.isCancelled) && bdOK(bd)
 //@   ensures [C16.flags-monotone] (old(bd.isCancelled) ==> bd.isCancelled) && bd.isComplete == old(bd.isComplete) && bd.isStarted == old(bd.isStarted)
 //@   modifies bd.isCancelled, bd.stateLock, bd.Mutex, chanof(bd.Started), chanof(bd.Complete)
 //@   safety [C16]
@@ -444,7 +444,7 @@ package bitcoin_reader
 //@   ensures [C16.cancel-started-once] sent(bd.Started) == old(sent(bd.Started)) + ite(old(!bd.isComplete && !bd.isCancelled && !bd.isStarted), 1, 0)
 //@   ensures [C16.cancel-complete-once] sent(bd.Complete) == old(sent(bd.Complete)) + ite(old(!bd.isComplete && !bd.isCancelled && bd.canceller != nil) && ghostv("cancelFoundStarted", 0) == 0, 1, 0)
 //@   ensures [C16.cancel-result-cancelled] sent(bd.Complete) > old(sent(bd.Complete)) ==> chanlog(bd.Complete, old(sent(bd.Complete))) == errBlockDownloadCancelled
-//@   ensures [C16.cancel-marks-cancelled] old(!bd.isComplete) ==> bd.isCancelled
+//@   ensures [C16.cancel-marks-cancelled] (old(!bd.isComplete) ==> bd.isCancelled) && bdOK(bd)
 //@   ensures [C16.flags-monotone] (old(bd.isCancelled) ==> bd.isCancelled) && bd.isComplete == old(bd.isComplete) && bd.isStarted == old(bd.isStarted)
 //@   modifies bd.isCancelled, bd.stateLock, bd.Mutex, chanof(bd.Started), chanof(bd.Complete), allof(BitcoinNode.blockReader), allof(BitcoinNode.blockOnStop), allof(BitcoinNode.blockHandler), allof(BitcoinNode.Mutex), ghost("cancelFoundStarted")
 //@   safety [C16]
@@ -515,3 +515,87 @@ package bitcoin_reader
 //@   ensures [C04.gated-by-count-and-root] blockEvents() != old(blockEvents()) ==> recvd(txChannel) - old(recvd(txChannel)) == txCount && ghostv("merkleCount", 0) == txCount && ghostv("merkleRoot", 0) == header.MerkleRoot && hashOf(header) == old(bd.hash)
 //@   modifies bd.stateLock, bd.Mutex, chanof(bd.Started), chanof(bd.Complete), chanof(txChannel), typesof(merkle_proof), allelems(*merkle_proof.MerkleProof), allelems(bitcoin.Hash32), ghost("processed"), ghost("relevant"), ghost("coinbase"), ghost("confirmed"), ghost("appended"), ghost("merkleRoot"), ghost("merkleCount")
 //@   safety [C16]
+
+// Block manager (C16): one terminal signal per request, completion only through an error-free downloader.
+
+//@ pure func bmCurOK(m *BlockManager) bool = m != nil && m.currentComplete != nil && (m.currentIsComplete == closed(m.currentComplete))
+
+// markBlockRequestComplete closes currentComplete at most once (the flag mirrors the channel), and only for the
+// hash of the request being processed.
+//@ func (*BlockManager).markBlockRequestComplete
+//@   requires bmCurOK(m)
+//@   ensures [C16.complete-once] bmCurOK(m) && (old(m.currentIsComplete) ==> m.currentIsComplete) && m.currentComplete == old(m.currentComplete) && m.currentHash == old(m.currentHash)
+//@   ensures [C16.complete-only-current] m.currentIsComplete && !old(m.currentIsComplete) ==> hash == m.currentHash
+//@   modifies m.currentIsComplete, m.currentLock, chanof(m.currentComplete)
+//@   safety [C16]
+
+//@ pure func holdsDownloader(l []*downloadThread, d *BlockDownloader) bool = exists(i, 0, len(l), l[i].downloader == d)
+//@ pure func threadsOK(l []*downloadThread) bool = forall(i, 0, len(l), l[i] != nil)
+
+//@ func (*BlockManager).removeDownloader
+//@   requires m != nil && threadsOK(m.downloaders)
+//@   ensures [C16.removed-one] old(holdsDownloader(m.downloaders, downloader)) ==> len(m.downloaders) == old(len(m.downloaders)) - 1
+//@   ensures [C16.remove-absent] !old(holdsDownloader(m.downloaders, downloader)) ==> len(m.downloaders) == old(len(m.downloaders))
+//@   ensures [C16.others-kept] threadsOK(m.downloaders) && forall(j, 0, len(m.downloaders), exists(i, 0, old(len(m.downloaders)), m.downloaders[j] == old(m.downloaders[i])))
+//@   modifies m.downloaders, elems(m.downloaders), m.downloaderLock
+//@   safety [C16]
+//@   loop 1
+//@     invariant (-1 <= rangeindex && rangeindex < len(m.downloaders)) || (len(m.downloaders) == 0 && rangeindex == -1)
+//@     invariant m.downloaders == atentry(m.downloaders) && forall(k, 0, len(m.downloaders), m.downloaders[k] == atentry(m.downloaders[k]))
+//@     invariant forall(k, 0, rangeindex+1, m.downloaders[k].downloader != downloader)
+
+// onDownloaderCompleted: the downloader leaves the list; the request is marked complete only when the downloader
+// finished without error, and then only for the hash it downloaded.
+//@ func (*downloadFinisher).onDownloaderCompleted
+//@   requires c != nil && c.manager != nil && c.downloader != nil && bmCurOK(c.manager) && threadsOK(c.manager.downloaders)
+//@   ensures [C16.complete-only-without-error] err != nil ==> c.manager.currentIsComplete == old(c.manager.currentIsComplete) && closed(c.manager.currentComplete) == old(closed(c.manager.currentComplete))
+//@   ensures [C16.complete-only-its-hash] c.manager.currentIsComplete && !old(c.manager.currentIsComplete) ==> err == nil && c.downloader.hash == c.manager.currentHash
+//@   ensures [C16.finisher-removes] old(holdsDownloader(c.manager.downloaders, c.downloader)) ==> len(c.manager.downloaders) == old(len(c.manager.downloaders)) - 1
+//@   ensures [C16.complete-once] bmCurOK(c.manager)
+//@   modifies c.manager.downloaders, elems(c.manager.downloaders), c.manager.downloaderLock, c.manager.currentIsComplete, c.manager.currentLock, chanof(c.manager.currentComplete), c.downloader.Mutex
+//@   safety [C16]
+
+// processRequest: a request that is processed to the end (nil) gets exactly one terminal signal on its complete
+// channel - BlockAborted sent once, or the channel closed - and never both; an error return signals nothing.
+//@ pure func dlOK(l []*downloadThread) bool = forall(i, 0, len(l), l[i] != nil && bdOK(l[i].downloader))
+//@ pure func isDownloadChan(l []*downloadThread, c chan error) bool = exists(i, 0, len(l), l[i].downloader.Complete == c)
+
+// requestBlock starts threads (environment): it only adds a freshly created downloader to the list.
+//@ trusted func (*BlockManager).requestBlock
+//@   requires m != nil
+//@   ensures old(dlOK(m.downloaders)) ==> dlOK(m.downloaders)
+//@   ensures forall(i, 0, len(m.downloaders), exists(j, 0, old(len(m.downloaders)), old(m.downloaders[j].downloader.Complete) == m.downloaders[i].downloader.Complete) || fresh(m.downloaders[i].downloader.Complete))
+//@   modifies m.downloaders, allelems(*downloadThread), m.downloaderLock
+
+// cancelDownloaders cancels every listed downloader of the hash: only channels of listed downloaders are signalled.
+//@ trusted func (*BlockManager).cancelDownloaders
+//@   requires m != nil && dlOK(m.downloaders)
+//@   ensures forallv(c, chan error, !old(isDownloadChan(m.downloaders, c)) ==> sent(c) == old(sent(c)) && closed(c) == old(closed(c)))
+//@   modifies m.downloaderLock, allof(BlockDownloader.isCancelled), allof(BlockDownloader.stateLock), allof(BlockDownloader.Mutex), allchans(interface{}), allchans(error), allof(BitcoinNode.blockReader), allof(BitcoinNode.blockOnStop), allof(BitcoinNode.blockHandler), allof(BitcoinNode.Mutex), ghost("cancelFoundStarted")
+
+//@ func (*BlockManager).Downloaders
+//@   requires m != nil && threadsOK(m.downloaders) && forall(i, 0, len(m.downloaders), m.downloaders[i].downloader != nil)
+//@   modifies m.downloaderLock, allof(BlockDownloader.Mutex), allelems(fmt.Stringer)
+//@   loop 1
+//@     modifies allof(BlockDownloader.Mutex), allelems(fmt.Stringer)
+//@     invariant (-1 <= rangeindex && rangeindex < len(m.downloaders)) || (len(m.downloaders) == 0 && rangeindex == -1)
+//@     invariant m.downloaders == atentry(m.downloaders) && forall(k, 0, len(m.downloaders), m.downloaders[k] == atentry(m.downloaders[k]) && m.downloaders[k].downloader == atentry(m.downloaders[k].downloader))
+
+//@ func (*BlockManager).processRequest
+//@   requires m != nil && request != nil && request.complete != nil && request.abort != nil && !closed(request.complete) && dlOK(m.downloaders)
+//@   requires [C16.request-channel-private] !isDownloadChan(m.downloaders, request.complete)
+//@   ensures [C16.one-terminal-signal] result == nil ==> (sent(request.complete) == old(sent(request.complete)) + 1 && !closed(request.complete) && chanlog(request.complete, old(sent(request.complete))) == BlockAborted) || (closed(request.complete) && sent(request.complete) == old(sent(request.complete)))
+//@   ensures [C16.no-signal-on-error] result != nil ==> sent(request.complete) == old(sent(request.complete)) && !closed(request.complete)
+//@   modifies allheap, allchans(interface{}), allchans(error), ghost("cancelFoundStarted")
+//@   safety [C16]
+//@   loop 1
+//@     modifies m.downloaders, allelems(*downloadThread), m.downloaderLock, allof(BlockDownloader.Mutex), allelems(fmt.Stringer)
+//@     invariant request.complete == atentry(request.complete) && request.abort == atentry(request.abort) && m.currentComplete == atentry(m.currentComplete)
+//@     invariant dlOK(m.downloaders)
+//@     invariant !isDownloadChan(m.downloaders, request.complete)
+
+// The lifecycle flags of a downloader are only ever set (no function of the package stores anything but true), so
+// "Cancel and Stop together signal at most once" follows from their contracts: the call that finds isCancelled false
+// sets it in the same critical section, every later call finds it true and sends nothing.
+//@ static monotone-flag BlockDownloader.isCancelled, BlockDownloader.isComplete, BlockDownloader.isStarted : none [C16]
+//@ static writers BlockManager.currentIsComplete : (*BlockManager).processRequest, (*BlockManager).markBlockRequestComplete [C16]
